@@ -366,6 +366,20 @@ def rule_field_map(ctx: Ctx, rule: str) -> Optional[Tuple[str, Dict[int, str]]]:
                                 for i, (fname, fv) in enumerate(f2 for f2 in v.fields if f2[0] not in ('metadata', 'data_type')):
                                     m.setdefault(i, fname)
     if cls is None:
+        # results built by a library fold (reduce(lambda acc, x: C(x, acc), ..., C(a, b))): the constructor terms sit in
+        # the step function and the seed
+        for o in outs:
+            if o.kind != 'return' or o.value is None:
+                continue
+            for x in walk(o.value):
+                if isinstance(x, Call) and isinstance(x.func, Ext) and x.func.name.split('.')[-1] == 'reduce':
+                    for a in x.args:
+                        v = a.body if type(a).__name__ == 'Lam' else a
+                        if isinstance(v, New):
+                            cls = cls or v.cls
+                            for i, (fname, fv) in enumerate(f2 for f2 in v.fields if f2[0] not in ('metadata', 'data_type')):
+                                m.setdefault(i, fname)
+    if cls is None:
         if classes_extra:
             _EXTRA[rule] = classes_extra
         return None
